@@ -191,6 +191,22 @@ func (c *Ctx) headerWriter(enc, esc *ssa.Function) {
 				writes = append(writes, wr{dst.Off, false, fmt.Sprintf("unexpected write at offset %s", dst.Off), "?"})
 			}
 		}
+		a.OnAppendUint = func(f2 *ssa.Function, site ssa.Instruction, st *absint.State, dst *absint.Slice, width int64, val absint.Term, le bool) {
+			if f2 != enc {
+				return
+			}
+			// binary.BigEndian.AppendUint16(data, h.PlatformSerialNumber): the serial, big-endian
+			o := encObs{kind: "other", pos: dst.Len, site: site, d: fmt.Sprintf("%d-byte integer appended at %s: not recognised", width, dst.Len)}
+			psn, _ := fld(st, "PlatformSerialNumber").(absint.Int)
+			bcd, _ := fld(st, "bcdTerminalPhoneNo").(*absint.Slice)
+			s0, okS := start(st)
+			if vi, isI := val.(absint.Int); isI && width == 2 {
+				o.kind = "serial"
+				o.ok = !le && okS && bcd != nil && st.Entails(eqC(dst.Len, s0.Add(bcd.Len))) && st.Entails(eqC(vi.L, psn.L))
+				o.d = fmt.Sprintf("the 16-bit value %s is appended at %s (little-endian=%v); expected the platform serial big-endian right after the phone", a.Render(val), dst.Len, le)
+			}
+			obs = append(obs, o)
+		}
 		a.OnAppend = func(f2 *ssa.Function, site ssa.Instruction, st *absint.State, dst *absint.Slice, src absint.Term) {
 			if f2 != enc {
 				return
@@ -362,12 +378,12 @@ func (c *Ctx) headerWriter(enc, esc *ssa.Function) {
 			want := []string{"body", "serial", "phone"}
 			cur := last.Call.Args[0]
 			for _, w := range want {
-				app, isA := isBuiltinCall(instrOf(cur), "append")
+				app, dst, isA := appendLike(instrOf(cur))
 				if !isA || siteKind[app] != w {
 					ok, d = false, fmt.Sprintf("the frame is not assembled in the order phone, serial, body, checksum (expected %s before)", w)
 					break
 				}
-				cur = app.Call.Args[0]
+				cur = dst
 			}
 		}
 		st := report.Discharged
@@ -466,4 +482,17 @@ func (c *Ctx) propertyWord(pdec, penc *ssa.Function) {
 		st, d = report.Violated, fmt.Sprintf("only %d reader fields and %d writer fields recognised", len(reader), len(writer))
 	}
 	R.Add("E3.property-word", "BodyProperty / all four fields recognised on both sides", "", st, d)
+}
+
+// appendLike: ins extends a byte slice: the builtin append(dst, …) or binary.{Big,Little}Endian.AppendUintN(dst, v).
+func appendLike(ins ssa.Instruction) (call *ssa.Call, dst ssa.Value, ok bool) {
+	if app, isApp := isBuiltinCall(ins, "append"); isApp {
+		return app, app.Call.Args[0], true
+	}
+	if c2, isC := ins.(*ssa.Call); isC {
+		if sc := c2.Call.StaticCallee(); sc != nil && strings.HasPrefix(sc.Name(), "AppendUint") && strings.Contains(sc.String(), "encoding/binary") && len(c2.Call.Args) >= 2 {
+			return c2, c2.Call.Args[len(c2.Call.Args)-2], true
+		}
+	}
+	return nil, nil, false
 }
